@@ -12,7 +12,7 @@ func init() {
 		technique: "index-range rule on the type-checked AST (unsigned modulus / rand.IntN(len) / constant 0), returned-value provenance, counter-update shape for cyclic order, lockset on the node slice",
 		explanation: "Decides for RoundRobin.Next, Random.Next and LeastLoad.Next: (1) the value returned is always an element x.nodes[i] of the balancer's own node slice; (2) the index is in [0,len) for every value of the internal counter — it is an unsigned value reduced modulo len(x.nodes), rand.IntN(len(x.nodes)), or 0 — so a wrapped counter cannot produce a negative index; (3) round-robin's counter update stores (index+1) mod len, i.e. the successor in cyclic order, independent of any wrap; (4) nodes and the counter are accessed under the balancer's mutex in Set and Next; (5) the client constructor rejects an empty node list before the balancer is used and hands it the validated list.",
 		assumptions: []string{"len(nodes) > 0 relies on the constructor's validation (checked) and on callers of the exported Set not passing an empty list", "least-load's stable sort comparator is a strict weak order on weights"},
-		minObl:     12,
+		minObl:     16,
 		run:        runC22,
 	})
 }
